@@ -26,7 +26,7 @@ PROP = {
         "Wm.Chain.decoratePublisher_eq_compose", "Wm.Chain.decorateSubscriber_eq_compose",
         "Wm.Chain.pub_decorators_in_order", "Wm.Chain.sub_decorators_in_order", "Wm.Chain.sub_decorators_in_order_from",
         "Wm.Chain.msg_trace_spec", "Wm.Chain.chain_perm_invariant", "Wm.Chain.chain_sublist",
-        "Wm.Chain.plugins_loaded_before_handlers_start",
+        "Wm.Chain.plugins_loaded_before_handlers_start", "Wm.Chain.caller_edits_invisible",
         "Wm.Chain.exec_regs", "Wm.Chain.started_frozen", "Wm.Chain.program_chain_trace",
     ],
     # re-proved on every run against lean/WmModel/Gen/ChainLoops.lean, which the extractor prints from message/router.go
@@ -55,12 +55,17 @@ PROP = {
             "overlapping Handler.AddMiddleware calls from 2..4 goroutines released together (same and different handlers, 1..3 "
             "calls each) between sequential registrations - the observation is part of the request (cchain) and the model checks "
             "that SOME serialisation of the block explains it; the monitor demands every registered middleware exactly once, "
-            "sequential order and each goroutine's own order preserved, order between goroutines free. Oracles: model observation equality and the property "
+            "sequential order and each goroutine's own order preserved, order between goroutines free. Every registration call of every program is made from a slice the application owns, "
+            "with spare capacity, passed as `xs...`; token X (11 fixed programs caller_edits_its_slices, a third of the random "
+            "programs, one AddHandler-placement variant of the exhaustive enumeration and a copy of every decorator-length case): "
+            "the application hands all those slices, extended on their spare capacity by a foreign recorder, to a second router and "
+            "then overwrites every element with foreign recorders (ids >= 9000) - no chain may change (the router's lists are value "
+            "copies made at registration time). Oracles: model observation equality and the property "
             "monitor. Non-trivial = some handler runs >= 2 middlewares or sees >= 2 decorators of one kind.",
     "trusted_base": [
         "Lean 4.33.0 kernel; axioms per theorem listed under theorem_axioms (subset of propext, Classical.choice, Quot.sound)",
         "extractor harness/cmd/extract/c09.go (go/ast: loop header, filter condition and body of handler.run, decorateHandlerPublisher, "
-        "decorateHandlerSubscriber; 29 structural facts about registration, snapshot and storing of the results) and the interpreter "
+        "decorateHandlerSubscriber; 31 structural facts about registration, snapshot and storing of the results) and the interpreter "
         "WmModel/ChainGo.lean as the semantics of those loop shapes",
         "Go semantics of slices/append/closures; a HandlerMiddleware / decorator is modelled as an arbitrary function alpha -> alpha",
         "differential harness harness/cmd/c09 (real Router, scripted subscribers, recording middlewares and decorators) + Lean driver "
@@ -80,6 +85,8 @@ PROP = {
         "what every serialisation has in common.",
         "Plugins: Run executes the plugins, in the order added, before it starts any handler; RunHandlers on the running router "
         "does not (model loadPlugins; theorem plugins_loaded_before_handlers_start).",
+        "The router copies what it is given at registration time (`append(r.list, arg...)`): later edits of the caller's slice are "
+        "invisible (model: Op.callerEdits is a no-op; theorem caller_edits_invisible; facts Add*Decorators_copies_the_arguments).",
         "Router.AddMiddleware does not take middlewaresLock: programs register from one goroutine and only after every started handler "
         "has processed a message (so its snapshot has been taken); concurrent registration is outside the property.",
     ],
@@ -93,7 +100,7 @@ PROP = {
                   "shapes are extracted from the current source and proved equal to the model on every run; the model and an "
                   "independent monitor are compared with traces of the real Router on exhaustive short and random long programs.",
     "level_note": "Proved about the model, not about the Go code; the tie is checked on every run (generated loop shapes + interpreter + "
-                  "4 tie theorems, 29 structural facts, differential harness with -race). Middlewares and decorators are modelled as "
+                  "4 tie theorems, 31 structural facts, differential harness with -race). Middlewares and decorators are modelled as "
                   "pure functions; concurrency of registration with running handlers is not covered.",
     "technique": "Lean 4 theorems over a hand-written executable model + generated deep-embedded loop shapes with tie theorems + "
                  "differential correspondence check against the Go code",
